@@ -15,9 +15,9 @@ import ast
 
 from ..cfg import cfg_of
 from ..core import META, Ctx, RuleResult, rule
-from ..dataflow import dataflow_of
-from ..model import AnalysisError, Func, norm_stmt, parent
-from ..paths import PathFinder, describe_path
+from ..dataflow import dataflow_of, walk_scope
+from ..model import AnalysisError, Func, dotted, norm_stmt, parent
+from ..paths import PathFinder, cond_facts, describe_path
 from ..terms import Term, contains, show, subterms
 from ..util import calls_in, catching_handler, deep_subterms, nodes_in
 
@@ -924,3 +924,124 @@ def c14_7(ctx: Ctx) -> RuleResult:
             res.instances.append(i)
     res.floor = 4
     return res
+
+
+# --------------------------------------------------------------------- C14.8
+def _optional_params(f: Func) -> list[str]:
+    node = f.node
+    if isinstance(node, ast.Lambda):
+        return []
+    out = []
+    for a in list(node.args.posonlyargs) + list(node.args.args) + list(node.args.kwonlyargs):
+        ann = a.annotation
+        if ann is None:
+            continue
+        if isinstance(ann, ast.Constant) and isinstance(ann.value, str):
+            try:
+                ann = ast.parse(ann.value, mode="eval").body
+            except SyntaxError:
+                continue
+        top = []
+        stack = [ann]
+        while stack:
+            x = stack.pop()
+            if isinstance(x, ast.BinOp) and isinstance(x.op, ast.BitOr):
+                stack += [x.left, x.right]
+            elif isinstance(x, ast.Subscript) and dotted(x.value) in ("Optional", "typing.Optional"):
+                top.append(ast.Constant(value=None))
+            else:
+                top.append(x)
+        if any(isinstance(x, ast.Constant) and x.value is None for x in top):
+            out.append(a.arg)
+    return out
+
+
+@rule(P)
+def c14_8(ctx: Ctx) -> RuleResult:
+    res = RuleResult("C14.8", "DOM", "a parameter declared `... | None` is used as an arithmetic operand, subscripted or dereferenced only where it cannot be None (package-wide)")
+    nfuncs = nsites = 0
+    for f in ctx.repo.all_funcs():
+        opts = _optional_params(f)
+        if not opts:
+            continue
+        nfuncs += 1
+        df = None
+        for p in opts:
+            sites = []
+            for n in walk_scope(f.node):
+                if not (isinstance(n, ast.Name) and n.id == p and isinstance(n.ctx, ast.Load)):
+                    continue
+                par = parent(n)
+                kind = None
+                if isinstance(par, ast.BinOp) and not isinstance(par.op, (ast.BitOr, ast.BitAnd)):
+                    kind = "arithmetic operand"
+                elif isinstance(par, ast.UnaryOp) and isinstance(par.op, (ast.USub, ast.Invert)):
+                    kind = "arithmetic operand"
+                elif isinstance(par, ast.Subscript) and par.value is n:
+                    kind = "subscripted"
+                elif isinstance(par, ast.Attribute) and par.value is n:
+                    kind = "dereferenced"
+                if kind is None:
+                    continue
+                # short-circuit guards inside the expression: `p is not None and p[0]`, `x if p is None else p.y`
+                guarded = False
+                child, cur = n, par
+                while cur is not None and not isinstance(cur, ast.stmt):
+                    if isinstance(cur, ast.BoolOp):
+                        idx = next((i for i, v in enumerate(cur.values) if v is child), None)
+                        if idx:
+                            for v in cur.values[:idx]:
+                                for fact, val in cond_facts(v, isinstance(cur.op, ast.And)):
+                                    if fact[0] == "isnone" and fact[1] == p and val is False:
+                                        guarded = True
+                    if isinstance(cur, ast.IfExp) and child is not cur.test:
+                        for fact, val in cond_facts(cur.test, child is cur.body):
+                            if fact[0] == "isnone" and fact[1] == p and val is False:
+                                guarded = True
+                    if isinstance(cur, (ast.ListComp, ast.SetComp, ast.GeneratorExp, ast.DictComp, ast.Lambda)):
+                        guarded = True  # evaluated in another scope / per element: not decided here
+                    child, cur = cur, parent(cur)
+                if not guarded:
+                    sites.append((n, kind))
+            if not sites:
+                continue
+            if df is None:
+                df = dataflow_of(ctx.repo, f)
+            cfg = df.cfg
+            pf = PathFinder(cfg, df)
+            redefs = {nd for nd in cfg.nodes if any(d.var == p for d in df.node_defs.get(nd, []))}
+            for n, kind in sites:
+                nsites += 1
+                targets = set(cfg.node_containing(n))
+                if not targets:
+                    continue
+                path = pf.find_path(cfg.entry, lambda x, targets=targets: x in targets, blocked=lambda x, redefs=redefs, targets=targets: x in redefs and x not in targets,
+                                    start_facts=[(("isnone", p, frozenset([p])), True)])
+                ok = path is None
+                res.add(f, n, f"`{p}` ({kind}) cannot be None here", ok,
+                        "" if ok else f"`{p}` may be None when `{norm_stmt(cfg_stmt(n))[:70]}` runs ({"; ".join(describe_path(f, path, 6))[:140]}): a TypeError/AttributeError instead of a documented outcome",
+                        construct=f"{f.qualname.rsplit('.', 2)[-2] if f.cls else ''}{'.' if f.cls else ''}{f.name}: {p} {kind} `{ast.unparse(parent(n))[:40]}`")
+    res.notes.append(f"{nfuncs} functions with optional parameters, {nsites} use sites")
+    res.floor = 20
+    return res
+
+
+def cfg_stmt(n: ast.AST) -> ast.AST:
+    while parent(n) is not None and not isinstance(n, ast.stmt):
+        n = parent(n)
+    return n
+
+
+# --------------------------------------------------------------------- C14.9
+@rule(P)
+def c14_9(ctx: Ctx) -> RuleResult:
+    """Shared with C03.5: the optimizer decides on TOO_FEW_REALIZATIONS for NaN-intolerant methods from
+    `result.realizations.failed_realizations`; it must be the mask the values were computed with."""
+    from .c03 import c03_5
+
+    r = c03_5(ctx)
+    r.instances = [i for i in r.instances if "failed_realizations" in i.construct]
+    for i in r.instances:
+        i.rule = "C14.9"
+    r.rule, r.title, r.floor = "C14.9", "the failure flags reported with a result (read by the all-failed test of the optimizer) are the flags the result was computed with", 1
+    return r
